@@ -21,3 +21,19 @@ from vlib import common
 print(common.build('dw', 'debug'))
 print(common.build('oct', 'debug'))
 PY
+python3 - <<'PY'
+# warm the Miri sysroot and the Miri build of harness/wmiri (third pass of C11); failure only disables that pass
+import sys, os, shutil
+sys.path.insert(0, '.')
+from vlib import common
+try:
+    from vlib.checks import c11
+    root = os.path.join(common.scratch_root(), 'setup-miri')
+    os.makedirs(root, exist_ok=True)
+    c11.miri_base(root)
+    print('miri worker ready')
+except Exception as e:
+    print('Miri warm-up failed (C11 runs without its Miri pass):', e)
+finally:
+    common.cleanup_scratch()
+PY
